@@ -8,7 +8,9 @@ ScriptCmds ==
      Cmd("push", 0, 0, ""), Cmd("push", 0, 1, ""), Cmd("push", 0, 2, ""),
      Cmd("pop", 0, 0, ""), Cmd("pop", 0, 1, ""), Cmd("pop", 0, 2, ""),
      Cmd("reset", 0, 0, ""), Cmd("check", 0, 0, ""),
-     Cmd("maximize", 5, 0, ""), Cmd("minimize", 6, 0, "")}
+     Cmd("maximize", 5, 0, ""), Cmd("minimize", 6, 0, ""),
+     \* objectives with attributes: n = 1 means :signed, id names the goal (the text puts :id before :signed)
+     Cmd("maximize", 5, 1, "g7"), Cmd("minimize", 6, 1, "")}
 
 SolverCmds ==
     {Cmd("assert", 1, 0, ""), Cmd("assert", 2, 0, ""),
